@@ -10,7 +10,9 @@
     c06 parse <hex utf-8 source | -> <table | -> <lits | ->
         the Lean PARSER model (`Model/Parse.lean`) on the source. lits = literal
         verdicts `L:<start>:<stop>:-` (decodes) / `L:<start>:<stop>:<Kind>:<a>:<b>`
-        (the decoder's error: kind, absolute location), `F:…` for f-string text parts
+        (the decoder's error: kind, absolute location) / `L:<start>:<stop>:<Kind>:rel:<a>:<b>`
+        (a string literal's escape error: the escaper's own range, relative to the content),
+        `F:…` for f-string text parts
       → `ok <sexp> | <spans>` | `err <Kind> <start> <end> <hint> | <spans>`
         | `need L|F <start> <stop>` (no verdict in the table for this literal)
         | `panic` | `fuel` | `bad-utf8`
@@ -89,8 +91,10 @@ def kindName' : EKind → String
   | .custom => "Custom"
   | .needLit _ _ _ => "NeedLit"
 
-/-- one literal verdict: (is f-string part, start, stop, error) -/
-abbrev LitEntry := Bool × Nat × Nat × Option (RotoV.Parse.EKind × RotoV.Lex.Span)
+/-- one literal verdict: (is f-string part, start, stop, error); the error's range is
+ABSOLUTE (`isRel = false`: what the real parser reported) or RELATIVE to the content of
+the string literal (`isRel = true`: what the escaper itself reported) -/
+abbrev LitEntry := Bool × Nat × Nat × Option (RotoV.Parse.EKind × RotoV.Lex.Span × Bool)
 
 def parseLits (s : String) : Option (List LitEntry) :=
   if s = "-" then some [] else
@@ -110,7 +114,11 @@ def parseLits (s : String) : Option (List LitEntry) :=
         | _, _ => none
       | some (f, [a, b, k, x, y]) =>
         match a.toNat?, b.toNat?, kindOfName k, x.toNat?, y.toNat? with
-        | some a, some b, some k, some x, some y => some ((f, a, b, some (k, (x, y))) :: l)
+        | some a, some b, some k, some x, some y => some ((f, a, b, some (k, (x, y), false)) :: l)
+        | _, _, _, _, _ => none
+      | some (f, [a, b, k, "rel", x, y]) =>
+        match a.toNat?, b.toNat?, kindOfName k, x.toNat?, y.toNat? with
+        | some a, some b, some k, some x, some y => some ((f, a, b, some (k, (x, y), true)) :: l)
         | _, _, _, _, _ => none
       | _ => none) (some [])
 
@@ -125,7 +133,8 @@ def litOracle (src : List Char) (tbl : List LitEntry) (f : Bool) (s e : Nat) :
   | some x =>
     match x.2.2.2 with
     | none => none
-    | some (k, (a, b)) =>
+    | some (k, (a, b), true) => some (k, 0, a, b)
+    | some (k, (a, b), false) =>
       if f then
         let t := RotoV.Parse.textOf src (s, e)
         let ps := RotoV.Parse.pieces t
